@@ -249,10 +249,8 @@ func ruleC02Fixpoint(c *ctx.Ctx, r *core.Reporter) {
 	}
 	okLoop := false
 	if loop != nil {
-		cond := squash(exprStr(loop.Cond))
 		// loop until done; done reset to true at the start of each round and cleared when any package reports more work
-		src := squash(nodeString(c, loop.Body))
-		okLoop = (cond == "!done") && strings.HasPrefix(src, "{done=true") && strings.Contains(src, "if!info.propagateFunctionBlocking(){done=false}")
+		okLoop = isFlagFixpoint(loop, "propagateFunctionBlocking")
 		// every package is visited in each round
 		rangesAll := false
 		ast.Inspect(loop.Body, func(n ast.Node) bool {
@@ -630,4 +628,64 @@ func ruleC02Escape(c *ctx.Ctx, r *core.Reporter) {
 		s := squash(nodeString(c, fd.Body))
 		r.Check(strings.Contains(s, "analysis.EscapingObjects(n,fc.pkgCtx.Info.Info)") && strings.Contains(s, "fc.pkgCtx.escapingVars[obj]=true") && strings.Contains(s, `fc.Printf("%s=[%s];",name,name)`), "use:boxing", c.Pos(fd.Pos()), "every escaping object is recorded and boxed as `name = [name]`")
 	}
+}
+
+// isFlagFixpoint recognises `for !F { F = true; … if !X.step() { F = false } … }`: the loop runs
+// until one full round in which every call of step reported "nothing left to do". The flag may have
+// any name; it must be set at the start of each round and cleared only (and always) under the
+// negated result of step.
+func isFlagFixpoint(loop *ast.ForStmt, step string) bool {
+	neg, ok := loop.Cond.(*ast.UnaryExpr)
+	if !ok || neg.Op != token.NOT {
+		return false
+	}
+	flagID, ok := neg.X.(*ast.Ident)
+	if !ok || len(loop.Body.List) == 0 {
+		return false
+	}
+	flag := flagID.Name
+	isSet := func(st ast.Stmt, val string) bool {
+		as, ok := st.(*ast.AssignStmt)
+		return ok && as.Tok == token.ASSIGN && len(as.Lhs) == 1 && exprStr(as.Lhs[0]) == flag && exprStr(as.Rhs[0]) == val
+	}
+	if !isSet(loop.Body.List[0], "true") {
+		return false
+	}
+	cleared, stray, unchecked := 0, 0, 0
+	guarded := map[ast.Stmt]bool{}
+	ast.Inspect(loop.Body, func(n ast.Node) bool {
+		if is, ok := n.(*ast.IfStmt); ok {
+			if u, ok := is.Cond.(*ast.UnaryExpr); ok && u.Op == token.NOT {
+				if call, ok := u.X.(*ast.CallExpr); ok {
+					if sel, ok := call.Fun.(*ast.SelectorExpr); ok && sel.Sel.Name == step {
+						for _, st := range is.Body.List {
+							if isSet(st, "false") {
+								cleared++
+								guarded[st] = true
+							}
+						}
+						if cleared == 0 {
+							unchecked++
+						}
+					}
+				}
+			}
+		}
+		return true
+	})
+	ast.Inspect(loop.Body, func(n ast.Node) bool {
+		if st, ok := n.(ast.Stmt); ok && st != loop.Body.List[0] && !guarded[st] {
+			if as, ok := st.(*ast.AssignStmt); ok {
+				for _, l := range as.Lhs {
+					if exprStr(l) == flag {
+						stray++
+					}
+				}
+			}
+		}
+		return true
+	})
+	// every call of step is one whose result is tested
+	calls := len(callsNamed(loop.Body, step))
+	return cleared >= 1 && stray == 0 && unchecked == 0 && calls == cleared
 }
